@@ -434,6 +434,35 @@ impl C07 {
         _ => TreeSpec::Concat { children: vec![big, tree], how: crate::spec::ConcatHow::AddLater },
       };
     }
+    if !ascii && rng.below(4000) == 0 {
+      // huge-leaf swarm mode (1 in 4000 of the non-ASCII cases): a text of a
+      // little more than 1 MiB made of 2- and 3-byte characters after 0-2
+      // ASCII lead bytes, so that a character straddles the 2^20 mark in most
+      // alignments; often below a ReplaceSource
+      let mut text = "ab"[..rng.usize_below(3)].to_string();
+      let unit = *rng.pick(&["é", "中", "éß", "文é"]);
+      while text.len() < (1 << 20) + 64 {
+        text.push_str(unit);
+      }
+      text.push_str("\nend;\n");
+      let big = TreeSpec::Raw { text };
+      tree = match rng.below(4) {
+        0 => big,
+        1 => TreeSpec::Concat { children: vec![big, tree], how: crate::spec::ConcatHow::New },
+        _ => TreeSpec::Replace {
+          inner: Box::new(big),
+          calls: vec![crate::spec::ReplCall {
+            start: 0,
+            end: 0,
+            content: (*rng.pick(&["", "x", "xy"])).to_string(),
+            name: None,
+            enforce: None,
+            via_insert: false,
+          }],
+          observe_at: None,
+        },
+      };
+    }
     if rng.chance(10) {
       // many-children swarm mode: a ConcatSource with a child count next to a
       // power of two (31 .. 1028), tiny children
@@ -606,7 +635,7 @@ impl Property for C07 {
     (serde_json::to_value(&cur).unwrap(), from)
   }
   fn rule(&self) -> String {
-    "case = one source tree over all eight source types (both binary leaf types with invalid UTF-8, ConcatSource built by new / add-later / nested typed, ReplaceSource, CachedSource, user-defined and re-boxed children) drawn from splitmix(VERIF_SEED, run index). Per tree: the four views are compared with a structural content model, then to_writer is executed once per failure offset k in 0..=len+1 in five modes (whole-buffer, short writes — for odd k into a sink that implements write_vectored itself —, short writes + EINTR bursts, a transient failure after which the sink accepts again, Ok(0) at k) plus fragmentation-only plans (also seven scatter/gather sinks accepting 1..7 bytes per call) and seeded mixed plans; exhaustive in k per tree for trees up to 600 bytes (3 % of the trees carry an 8-20 KiB leaf and use the offsets around every power-of-two boundary plus a seeded sample), trees sampled (1% are a ConcatSource of 31 .. 1028 tiny children, the count next to a power of two). Histories that start with the writer: two plans (fragmented + interrupted; failing / full / transient / one EINTR) are each the first call on a fresh object of the same tree, followed by the four views and a fault-free to_writer. distinct_nontrivial = distinct composite trees with non-empty content.".into()
+    "case = one source tree over all eight source types (both binary leaf types with invalid UTF-8, ConcatSource built by new / add-later / nested typed, ReplaceSource, CachedSource, user-defined and re-boxed children) drawn from splitmix(VERIF_SEED, run index). Per tree: the four views are compared with a structural content model, then to_writer is executed once per failure offset k in 0..=len+1 in five modes (whole-buffer, short writes — for odd k into a sink that implements write_vectored itself —, short writes + EINTR bursts, a transient failure after which the sink accepts again, Ok(0) at k) plus fragmentation-only plans (also seven scatter/gather sinks accepting 1..7 bytes per call) and seeded mixed plans; exhaustive in k per tree for trees up to 600 bytes (3 % of the trees carry an 8-20 KiB leaf and use the offsets around every power-of-two boundary plus a seeded sample), trees sampled (1% are a ConcatSource of 31 .. 1028 tiny children, the count next to a power of two; 1 in 4000 non-ASCII trees carries a leaf of a little more than 1 MiB of multi-byte characters, often below a ReplaceSource). Histories that start with the writer: two plans (fragmented + interrupted; failing / full / transient / one EINTR) are each the first call on a fresh object of the same tree, followed by the four views and a fault-free to_writer. distinct_nontrivial = distinct composite trees with non-empty content.".into()
   }
   fn assumptions(&self) -> Vec<String> {
     vec![
